@@ -39,12 +39,13 @@ Fixpoint spec_match (s : spec) (l : list (op * oview)) : bool :=
   | (o, ov) :: r => let '(s', ob) := sstep s o in view_match (ob, (length (un s'), un s')) ov && spec_match s' r
   end.
 (* ... as far as the contract determines the history (it stops at the first operation outside op_ok) *)
-Fixpoint spec_match_ok (g : bool) (s : spec) (l : list (op * oview)) : bool :=
+Fixpoint spec_match_ok (g : bool) (k : Z) (s : spec) (l : list (op * oview)) : bool :=
   match l with
   | [] => true
   | (o, ov) :: r =>
-    if op_ok g s o then
-      let '(s', ob) := sstep s o in view_match (ob, (length (un s'), un s')) ov && spec_match_ok (next_g g o) s' r
+    if op_ok g k s o then
+      let '(s', ob) := sstep s o in
+      view_match (ob, (length (un s'), un s')) ov && spec_match_ok (next_g g o) (next_k k o) s' r
     else true
   end.
 
@@ -66,7 +67,7 @@ Definition case_holds (c : case) : bool :=
   match c with
   | CEq i steps =>
       (* tex.Buffer and bytes.Buffer agree on every step of a history the property speaks about *)
-      if ok_seq false (init_spec i) (ops3 steps)
+      if ok_seq false (init_k i) (init_spec i) (ops3 steps)
       then forallb (fun x => oview_eqb (snd (fst x)) (snd x)) steps
       else true
   | CTex i steps =>
@@ -74,7 +75,7 @@ Definition case_holds (c : case) : bool :=
          addressed bytes) determines *)
       init_holds i
       && (if init_panicked i then match steps with [] => true | _ => false end
-          else spec_match_ok false (init_spec i) steps)
+          else spec_match_ok false (init_k i) (init_spec i) steps)
   end.
 
 (* ---- the implementation behaved exactly as the model ---- *)
@@ -83,7 +84,7 @@ Definition model_matches (c : case) : bool :=
   | CEq i steps =>
       init_wf i && negb (init_panicked i) && init_holds i
       && negb (existsb is_rewrite (ops3 steps))
-      && ok_seq false (init_spec i) (ops3 steps)
+      && ok_seq false (init_k i) (init_spec i) (ops3 steps)
       && forallb (fun x => same_shape (snd (fst x)) (snd x)) steps
       && tex_match (init_buf i) (tex3 steps)            (* model of tex.Buffer  vs tex.Buffer *)
       && spec_match (init_spec i) (ref3 steps)          (* contract             vs bytes.Buffer *)
@@ -118,42 +119,42 @@ Proof.
   apply zlist_eqb_eq in Ha3. apply zlist_eqb_eq in Hb3. subst. apply zlist_eqb_refl.
 Qed.
 
-Lemma ceq_sound steps : forall g b s, R g b s -> ok_seq g s (ops3 steps) = true ->
+Lemma ceq_sound steps : forall g k b s, R g b s -> (zn (cap b) <= k)%Z -> ok_seq g k s (ops3 steps) = true ->
   forallb (fun x => same_shape (snd (fst x)) (snd x)) steps = true ->
   tex_match b (tex3 steps) = true -> spec_match s (ref3 steps) = true ->
   forallb (fun x => oview_eqb (snd (fst x)) (snd x)) steps = true.
 Proof.
-  induction steps as [|[[o a] c] steps IH]; intros g b s HR Hok Hsh Ht Hs; [reflexivity|].
+  induction steps as [|[[o a] c] steps IH]; intros g k b s HR Hcap Hok Hsh Ht Hs; [reflexivity|].
   cbn [ops3 tex3 ref3 map fst snd ok_seq forallb tex_match spec_match] in *.
   apply andb_prop in Hok. destruct Hok as [Hok1 Hok2]. apply andb_prop in Hsh. destruct Hsh as [Hsh1 Hsh2].
-  destruct (step_sim g b s o HR Hok1) as [Ho HR'].
+  destruct (step_sim g k b s o HR Hcap Hok1) as (Ho & HR' & Hcap').
   destruct (step b o) as [b' ob]. destruct (sstep s o) as [s' os]. cbn [fst snd] in *.
   apply andb_prop in Ht. destruct Ht as [Ht1 Ht2]. apply andb_prop in Hs. destruct Hs as [Hs1 Hs2].
   pose proof (R_len _ _ _ HR') as Hlen. pose proof HR' as (_ & Hl' & _).
   rewrite <- Ho, Hlen, <- Hl' in Hs1.
   rewrite (view_match_trans _ _ _ Ht1 Hs1 Hsh1). cbn [andb].
-  apply (IH (next_g g o) b' s'); assumption.
+  apply (IH (next_g g o) (next_k k o) b' s'); assumption.
 Qed.
 
-Lemma ctex_sound steps : forall g b s, R g b s -> tex_match b steps = true -> spec_match_ok g s steps = true.
+Lemma ctex_sound steps : forall g k b s, R g b s -> (zn (cap b) <= k)%Z -> tex_match b steps = true -> spec_match_ok g k s steps = true.
 Proof.
-  induction steps as [|[o a] steps IH]; intros g b s HR Ht; [reflexivity|].
-  cbn [tex_match spec_match_ok] in *. destruct (op_ok g s o) eqn:Hok; [|reflexivity].
-  destruct (step_sim g b s o HR Hok) as [Ho HR'].
+  induction steps as [|[o a] steps IH]; intros g k b s HR Hcap Ht; [reflexivity|].
+  cbn [tex_match spec_match_ok] in *. destruct (op_ok g k s o) eqn:Hok; [|reflexivity].
+  destruct (step_sim g k b s o HR Hcap Hok) as (Ho & HR' & Hcap').
   destruct (step b o) as [b' ob]. destruct (sstep s o) as [s' os]. cbn [fst snd] in *.
   apply andb_prop in Ht. destruct Ht as [Ht1 Ht2].
   pose proof (R_len _ _ _ HR') as Hlen. pose proof HR' as (_ & Hl' & _).
-  rewrite <- Ho, Hlen, <- Hl'. rewrite Ht1. cbn [andb]. apply (IH (next_g g o) b' s'); assumption.
+  rewrite <- Ho, Hlen, <- Hl'. rewrite Ht1. cbn [andb]. apply (IH (next_g g o) (next_k k o) b' s'); assumption.
 Qed.
 
 Theorem case_sound : forall c, case_accept c = true -> case_holds c = true.
 Proof.
   intros [i steps|i steps] H; unfold case_accept, model_matches in H; cbn [case_holds].
   - repeat (apply andb_prop in H; destruct H as [H ?]).
-    match goal with Hok : ok_seq _ _ _ = true |- _ => rewrite Hok end.
-    apply (ceq_sound steps false (init_buf i) (init_spec i)); try assumption. apply init_related. assumption.
+    match goal with Hok : ok_seq _ _ _ _ = true |- _ => rewrite Hok end.
+    apply (ceq_sound steps false (init_k i) (init_buf i) (init_spec i)); try assumption; [apply init_related; assumption|apply Z.le_refl].
   - repeat (apply andb_prop in H; destruct H as [H ?]).
     match goal with Hh : init_holds _ = true |- _ => rewrite Hh end. cbn [andb].
     destruct (init_panicked i); [assumption|].
-    apply (ctex_sound steps false (init_buf i) (init_spec i)); [apply init_related|]; assumption.
+    apply (ctex_sound steps false (init_k i) (init_buf i) (init_spec i)); [apply init_related; assumption|apply Z.le_refl|assumption].
 Qed.
